@@ -138,6 +138,7 @@ func (c17) Generate(idx int, r *core.Rand, tier string) core.Script {
 	if w.Chance(1, 3) {
 		focus = w.Weighted(weights...)
 	}
+	long := !L2Enabled && w.Chance(1, 100) // long-lived tasks
 	for t := 0; t < nt; t++ {
 		var ops []c17Op
 		n := w.Range(1, 6)
@@ -146,6 +147,9 @@ func (c17) Generate(idx int, r *core.Rand, tier string) core.Script {
 		}
 		if focus >= 0 {
 			n = w.Range(1, 2)
+		}
+		if long {
+			n = w.Range(10, 25)
 		}
 		for i := 0; i < n; i++ {
 			ki := w.Weighted(weights...)
